@@ -267,6 +267,8 @@ func runC02(c *Ctx) {
 	c.freshDecodeTarget("R02.7")
 
 	// ---- R02.8
+	c.rule("R02.9", "a request handed to the connection loop is registered or failed: the hand-over is a rendezvous (unbuffered queue), so no request can be left in a buffer when the loop exits and every call completes")
+	c.unbufferedQueue("R02.9")
 	c.rule("R02.8", "the argument list of the reflective handler call is allocated per invocation (never memory shared between calls)")
 	c.freshArgList("R02.8")
 }
